@@ -141,6 +141,10 @@ def directed_for_file(arg):
         key = "/".join(kpath)
         n = leaf_limit(classes, reqs, tag, key)
         goals = {g: (lambda s, fn=fn, n=n: fn(s, n)) for g, fn in GOALS.items()}
+        # a number computed from drawn numbers: a value that is not the binary64 nearest to a decimal with few decimals
+        goals["num:long-fraction"] = lambda v: isinstance(v, float) and len(repr(v).split(".")[-1]) > 4
+        goals["num:integral"] = lambda v: float(v) == int(v)
+        goals["num:three-decimals"] = lambda v: isinstance(v, float) and len(repr(v).split(".")[-1]) == 3
         t = tries * (6 if (f, jpath) in targets else 1)
         if (f, jpath) in targets:
             cs = set(classes["x"])
@@ -214,7 +218,7 @@ def run(ctx):
     ctx.rule = ("every scenario file under /repo/test_scenarios (all 30 types; index and README excluded). (a) proof side: every text leaf with a requirement, all draws "
                 "(gen/Scenarios.v). (b) N random draws of the library's own generator per file (quick %d, thorough 300). (c) directed draws per file: every generator at its "
                 "longest / shortest / most unusual value, BIC countries DE/US/AD/GB, dates 2028-02-29 / 2049-12-31 / 2030-01-01 / 2026-12-31, and for every variable "
-                "leaf a search (%d tries) for values that end in a blank, end or start in punctuation, contain an apostrophe, fill the component exactly or by one less, plus a constructive choice of word lengths that makes the cut of a substr land on a blank or on punctuation; "
+                "leaf a search (%d tries) for values that end in a blank, end or start in punctuation, contain an apostrophe, fill the component exactly or by one less, for computed numbers a value with a long binary fraction, plus a constructive choice of word lengths that makes the cut of a substr land on a blank or on punctuation; "
                 "the fake nodes are replaced by the chosen values and the library's own generator evaluates the rest. (d) strings drawn from each requirement at a leaf "
                 "that has it. Every draw goes through generate_mt -> publish_mt -> validate_mt -> parse_mt; it passes when all succeed, validation reports valid "
                 "with no error, and the parsed JSON equals the generated JSON exactly; distinct = (scenario file, generated MT text)") % (n_random, tries)
